@@ -36,6 +36,7 @@ def plan_solo(tier, which=('hurry', 'orders')):
         if 'hurry' in which:
             p.append(S('solo/hurry/login+drone/t30', 'login+drone', 30, [1], alpha.scen_hurry([1])))
             p.append(S('solo/hurry/drone/t30', 'drone', 30, [1], alpha.scen_hurry([1])))
+            p.append(S('solo/hurry/ipr+comb/t0', 'ipr+comb', 0, [1], alpha.scen_hurry([1])))       # the two other protocols, no timeout configured
         if 'orders' in which:
             p.append(S('solo/orders/login+drone/t30', 'login+drone', 30, [1], alpha.scen_orders([1])))
     else:
